@@ -116,6 +116,8 @@ type Engine struct {
 	sites     map[*ssa.Function][]ssa.CallInstruction
 	escaped   map[*ssa.Function]bool
 	entryOn   map[*ssa.Function]factSet
+	cellVers  map[*ssa.Alloc]*cellVersions
+	keyDepth  int
 }
 
 type fnCtx struct {
@@ -248,6 +250,22 @@ func (e *Engine) keyOf(v ssa.Value) Key {
 				}
 				if fwd := e.forwarded(v, a); fwd != nil {
 					return e.keyOf(fwd)
+				}
+				// the value of the one store that reaches this load, or the first load of the same version
+				if e.keyDepth < 12 {
+					e.keyDepth++
+					val, rep := e.cellValue(v, a)
+					var k Key
+					switch {
+					case val != nil:
+						k = e.keyOf(val)
+					case rep != v:
+						k = Key{Root: rep}
+					default:
+						k = Key{Root: v}
+					}
+					e.keyDepth--
+					return k
 				}
 			case *ssa.FreeVar:
 				// captured cell: name by the free variable (one per closure instance)
